@@ -122,6 +122,57 @@ def composite_language(h):
     return lang, [str(ops[i]) for i in range(5, 5 + hh.nbase)]
 
 
+def alias_language(h):
+    """a parameterised type alias with a wildcard in its body, Rel(x) = G2(x, _), and operators
+    that read the second parameter at different types"""
+    import transforge as tf
+    import transforge.type as T
+    hh = C.Hierarchy.from_json(h.to_json())
+    ops = hh.build()
+    G2 = T.TypeOperator("G2", params=2)
+    bases = [ops[i] for i in range(5, 5 + hh.nbase)]
+    scope = {str(b): b for b in bases}
+    scope["G2"] = G2
+    scope["Rel"] = T.TypeAlias(lambda x: G2(x, T._))
+    scope["Pair"] = T.TypeAlias(lambda x: G2(x, x))
+    for j, b in enumerate(bases):
+        scope[f"take{j}"] = tf.Operator(type=(lambda b0, bj: G2(b0(), bj()) ** bj())(bases[0], b))
+    lang = tf.Language(scope=scope, namespace="https://example.com/c16a#")
+    return lang, [str(b) for b in bases]
+
+
+def alias_histories(rep, rng, h, n, stats):
+    """the same alias written several times at the same parameter: each writing stands for a
+    fresh expansion, whatever was inferred about an earlier one"""
+    import re
+    for _ in range(n):
+        lang, bases = alias_language(h)
+        texts = lambda: rng.choice([f"take{rng.randrange(len(bases))} (- : Rel({bases[0]}))",
+                                    f"take0 (- : Pair({bases[0]}))", f"(- : Rel({rng.choice(bases)}))"])
+        hist = [texts() for _ in range(rng.randint(1, 4))]
+        for t in hist:
+            try:
+                lang.parse(t).fix()
+            except Exception:   # noqa: BLE001
+                pass
+        probe = texts()
+
+        def run(L):
+            try:
+                e = L.parse(probe)
+                return str(e.type), str(e)
+            except Exception as ex:   # noqa: BLE001
+                return ("error", type(ex).__name__)
+        norm = lambda x: re.sub(r"[τx][0-9₀-₉]+", "v", str(x))
+        after, fresh = run(lang), run(alias_language(h)[0])
+        stats["alias_probes"] = stats.get("alias_probes", 0) + 1
+        if norm(after) != norm(fresh):
+            rep.violation(f"alias_{stats['alias_probes']}", {"kind": "oracle",
+                "what": "a type alias written again after a history expands differently than in a fresh identical language",
+                "hierarchy": h.to_json(), "aliases": "Rel(x) = G2(x, _); Pair(x) = G2(x, x); take<j> : G2(B0, B<j>) ** B<j>",
+                "history": hist, "probe": probe, "after_history": str(after), "fresh": str(fresh)}, has_input=True)
+
+
 def composite_texts(rng, bases):
     b = rng.choice(bases)
     return rng.choice([f"roundtrip (- : {b})", f"twice idp (- : {b})", f"wrap2 (- : {b})",
@@ -239,6 +290,7 @@ def main(tier: str, seed: int, replay: str | None = None) -> int:
                 samples.append({"history": hist, "probe": text, "root_type": repr(after["vals"][-1])})
         items.append((h, progs))
         composite_histories(rep, rng, h, 6 if tier == "quick" else 20, stats)
+        alias_histories(rep, rng, h, 6 if tier == "quick" else 20, stats)
     dumps = E.model_eval(f"C16_{tier}", items, check=False)
     dis = 0
     for (hj, text, after), rows in zip(metas, [r for rl in dumps for r in rl]):
@@ -259,7 +311,8 @@ def main(tier: str, seed: int, replay: str | None = None) -> int:
                 "using a constant at one particular type, using one operator on arguments made for its parameters, validate, printing signatures, instantiating/fixing operator types, applying them, parse_type with "
                 "wildcards, add_expr, add_vocabulary, query construction; histories accumulate over the probes of a "
                 "language; non-trivial = history of >= 3 operations; plus, per hierarchy, histories over a language with "
-                "polymorphic COMPOSITE operators (validate, primitive() at some type) and a probe expansion at another type",
+                "polymorphic COMPOSITE operators (validate, primitive() at some type) and a probe expansion at another type, and "
+                "histories that write a parameterised type alias with a wildcard in its body several times",
         "outcome_distribution": stats, "samples": samples, "exhaustive": False})
     rep.assumptions = [
         "the model has no shared mutable definitions by construction; history independence of the model's store is the theorem, "
